@@ -108,3 +108,20 @@ package filesystem
 //gvc:  sink IndexWriter requires encoded: calls("Encode") == 1 && lastres("Encode") == nil
 //gvc:  ensures durable: werr == nil ==> calls("Encode") == 1 && lastres("Encode") == nil && calls("IndexWriter") == 1 && lastres("IndexWriter") == nil && calls("Write") == 1 && lastres("Write") == nil && now(f).#closeerr == nil && !now(f).#open
 //gvc:end
+
+// SetEncodedObject (property C18: an object is visible once its write has
+// returned; C01: what is stored is the object that was handed in). A nil error
+// means that this call created a loose-object writer, wrote the header and the
+// whole content through it and closed it successfully - the deferred Close,
+// which publishes the object, reports through the named result. There is no
+// success path that writes nothing (a cached copy does not prove that this
+// storage holds the object).
+//gvc:func (*ObjectStorage).SetEncodedObject
+//gvc:  props C18 C01
+//gvc:  theory int
+//gvc:  opt coarse
+//gvc:  opt frame args
+//gvc:  results h err
+//gvc:  requires nn: s != nil && o != nil
+//gvc:  ensures written: err == nil ==> calls("NewObject") == 1 && lastres("NewObject") == nil && calls("WriteHeader") == 1 && lastres("WriteHeader") == nil && calls("CopyBufferPool") == 1 && lastres("CopyBufferPool") == nil && now(ow).#closeerr == nil && !now(ow).#open
+//gvc:end
